@@ -1,5 +1,7 @@
 import SuccinctlyVerif.Spec.YamlScalar
 import SuccinctlyVerif.Model.YamlEmit
+import SuccinctlyVerif.Model.YamlAnchor
+import SuccinctlyVerif.Model.YamlBlock
 import Driver.Util
 namespace SV.Drv.C15
 open SV SV.Drv SV.Yaml SV.Yaml.Emit
@@ -25,16 +27,6 @@ def scalarStr : Scalar → String
   | .float .nan => "float:nan"
   | .str _ => "str"
 
-/-- Documented deviations of `resolve_plain` from the core schema (scalar.rs header): integers
-outside `i64` (decimal ⇒ float or, when not finite, string; based ⇒ string) and decimal floats that
-overflow `f64` (⇒ string).  Everything else must agree. -/
-def resolveAgrees (spec model : Scalar) : Bool :=
-  match spec, model with
-  | .int n, m => if -(2 : Int) ^ 63 ≤ n && n < (2 : Int) ^ 63 then m = .int n
-                 else (m = .float .finite || m.isStr)
-  | .float .finite, m => m = .float .finite || m.isStr
-  | s, m => s = m
-
 def styleOf (s : String) : Style :=
   if s == "s" then .single else if s == "d" then .double else .other
 
@@ -44,6 +36,63 @@ def ctxKey (flow top : Bool) : Ctx := if flow then .flowKey else .blockKey top
 def srcStyleOf (s : String) : SrcStyle :=
   if s == "d" then .doubleQuoted else if s == "s" then .singleQuoted
   else if s == "u" then .unquoted else .block
+
+instance : Inhabited Anchor.Forest := ⟨.nil⟩
+
+/-- Forest encoding `N<label>.<n|d<name>|a<name>>.<payload>[children]…` (see the harness). -/
+partial def parseNodes (cs : List Char) : Anchor.Forest × List Char :=
+  let num (cs : List Char) : Nat × List Char :=
+    let ds := cs.takeWhile Char.isDigit
+    (ds.foldl (fun a c => a * 10 + (c.toNat - 48)) 0, cs.dropWhile Char.isDigit)
+  match cs with
+  | 'N' :: r =>
+    let (label, r) := num r
+    let r := r.drop 1
+    let (mark, r) : Anchor.Mark × List Char :=
+      match r with
+      | 'd' :: r' => let (n, r'') := num r'; (.declares n, r'')
+      | 'a' :: r' => let (n, r'') := num r'; (.aliases n, r'')
+      | _ :: r' => (.none, r')
+      | [] => (.none, [])
+    let r := r.drop 1
+    let (payload, r) := num r
+    let r := r.drop 1
+    let (children, r) := parseNodes r
+    let r := r.drop 1
+    let (rest, r) := parseNodes r
+    (.cons label mark payload children rest, r)
+  | _ => (.nil, cs)
+
+instance : Inhabited Block.Tree := ⟨.nil⟩
+
+/-- Block-tree encoding `K<hexkey>S<hexval>;` / `K<hexkey>M[…]` (see the harness). -/
+partial def parseBlock (cs : List Char) : Block.Tree × List Char :=
+  match cs with
+  | 'K' :: r =>
+    let hx := r.takeWhile (fun c => c.isDigit || ('a' ≤ c && c ≤ 'f'))
+    let r := r.dropWhile (fun c => c.isDigit || ('a' ≤ c && c ≤ 'f'))
+    let key := (chars? (if hx.isEmpty then "-" else String.ofList hx)).getD []
+    match r with
+    | 'S' :: r' =>
+      let hv := r'.takeWhile (fun c => c != ';')
+      let r'' := (r'.dropWhile (fun c => c != ';')).drop 1
+      let v := (chars? (if hv.isEmpty then "-" else String.ofList hv)).getD []
+      let (rest, r3) := parseBlock r''
+      (.cons key (some v) .nil rest, r3)
+    | 'M' :: '[' :: r' =>
+      let (ch, r2) := parseBlock r'
+      let (rest, r3) := parseBlock (r2.drop 1)
+      (.cons key none ch rest, r3)
+    | _ => (.nil, r)
+  | _ => (.nil, cs)
+
+def lineText (l : Block.Line) : List Char :=
+  List.replicate l.indent ' ' ++ l.key ++ [':'] ++
+    (match l.value with | some v => ' ' :: v | none => [])
+
+def evStr : Anchor.Ev → String
+  | .decl n _ => s!"&{n}"
+  | .alias n _ => s!"*{n}"
 
 /-- Answers of the model.  Wherever the request asks for a re-read verdict the driver prints what
 the property demands (`REREAD-OK` / `LOOP-OK`); the harness prints what the real loader did. -/
@@ -56,7 +105,8 @@ def exec (a : List String) : String :=
     | some s =>
       let m := resolvePlainRs s
       let sp := coreResolve s
-      if resolveAgrees sp m then scalarStr m else s!"MODEL-SPEC {scalarStr m} spec={scalarStr sp}"
+      -- `resolve_plain_is_core_schema`: equal outside `deviates`
+      if deviates s || m = sp then scalarStr m else s!"MODEL-SPEC {scalarStr m} spec={scalarStr sp}"
   | ["qv", h, st, fl, _ind] =>
     match chars? h with
     | none => "BAD-UTF8"
@@ -103,6 +153,19 @@ def exec (a : List String) : String :=
   | ["ind", n] =>
     let n := parseNat n
     s!"dom={domIndentWidth rev n} stream={streamIndentWidth n}"
+  | ["anc", enc] =>
+    let f := (parseNodes enc.toList).1
+    let eqv : Anchor.Forest → Anchor.Forest → Bool := fun a b => a == b
+    let evs := Anchor.emit (Anchor.enforce eqv f)
+    let toks := if evs.isEmpty then "-" else ",".intercalate (evs.map evStr)
+    -- `alias_sound`: sound whenever no mark lies below an alias node; otherwise computed
+    let ok := Anchor.aliasOpaque f || Anchor.sound eqv evs
+    s!"{toks} {if ok then "SOUND" else "UNSOUND"}"
+  | ["blk", step, enc] =>
+    let tr := (parseBlock enc.toList).1
+    let ls := Block.emitLines rev (parseNat step) 0 tr
+    let text := (ls.map lineText).intersperse ['\n'] |>.flatten
+    s!"{hexOfChars text} LOAD-OK"
   | ["sloop", _doc, _ind] => "LOOP-OK"
   | ["cli", _doc, _prog, _ind] => "LOOP-OK"
   | _ => "BAD-OP"
